@@ -500,9 +500,9 @@ const ruleAPI = "Context.APIHandler / APIHandlerRapiDoc / APIHandlerSwaggerUI ov
 // Props lists the generated checks of C20.
 func Props() []kit.Runner {
 	return []kit.Runner{
-		kit.Prop[MWCase]{ID: "C20", Name: "middleware", Rule: ruleMW, Quick: 8000, Thorough: 60000,
+		kit.Prop[MWCase]{ID: "C20", Name: "middleware", Rule: ruleMW, Quick: 20000, Thorough: 100000,
 			Gen: GenMW, Check: CheckMW, Classify: ClassifyMW},
-		kit.Prop[APICase]{ID: "C20", Name: "apihandler", Rule: ruleAPI, Quick: 2000, Thorough: 12000,
+		kit.Prop[APICase]{ID: "C20", Name: "apihandler", Rule: ruleAPI, Quick: 2000, Thorough: 8000,
 			Gen: GenAPI, Check: CheckAPI, Classify: ClassifyAPI},
 	}
 }
